@@ -413,6 +413,8 @@ def main(chk):
     n = 240 if quick else 1600
     jobs = [{"id": "j%d" % i, "seed": job_seed(chk.seed, "C16", i), "cases": 40 if quick else 80, "colcases": 6 if quick else 12}
             for i in range(n)]
+    if not quick:
+        jobs += chk.shard(jobs[:120], "arith", 120) + chk.shard(jobs[120:200], "asan", 80)
     chk.run_jobs(jobs, budget_s=300 if quick else 3000)
     return chk.finish(
         rule="each documented scalar function (all aliases) on quoted literals - ASCII, mixed case, multi-byte and combining characters, "
